@@ -339,6 +339,9 @@ func condRules(c *Ctx, owners map[string]bool, floors map[string]int) {
 
 	// ---- W7
 	m.noUnconditionalPark()
+
+	// ---- W8
+	m.checkBeforePark(floors["W8"])
 }
 
 func countSame(all []guardedAccess, a guardedAccess) int {
@@ -950,5 +953,81 @@ func (m *condModel) noUnconditionalPark() {
 	}
 	if n == 0 {
 		R.OK("W7", "none", "-", "no always-parking wait function has a caller")
+	}
+}
+
+// ---------------------------------------------------------------- W8
+//
+// checkBeforePark: on every path from the function's entry to a cond.Wait the
+// waited-for state is read while the cond's locker is held. A check made before
+// the lock is taken (a lock-free or separately locked fast path) does not
+// count: the state can change, and its notification be sent to nobody, between
+// that check and the park.
+func (m *condModel) checkBeforePark(floor int) {
+	R := m.c.R
+	p := m.c.P
+	R.Rule("W8", "on every path from function entry to a cond.Wait the waited-for state is read with the cond's locker held (check and park are in one critical section; a predicate evaluated before the lock is taken does not count)", floor)
+	for _, w := range m.waits {
+		at := w.F.Name + "/Wait(" + condNames(w.Conds) + ")/checked-under-lock"
+		pos := p.Position(w.Call.Pos())
+		pred := map[FieldID]bool{}
+		for id := range w.Reads {
+			if id.Name != "closed" {
+				pred[id] = true
+			}
+		}
+		if len(pred) == 0 {
+			for id := range w.Reads {
+				pred[id] = true
+			}
+		}
+		if len(pred) == 0 {
+			R.Fail("W8", at, pos, "the wait loop reads no guarded state at all")
+			continue
+		}
+		r := m.la.res[w.F]
+		lockRequired := r != nil && len(r.reqs) > 0
+		fl := newFlow(w.F)
+		target, ok := fl.At(w.Call)
+		if !ok {
+			R.Undecided("W8", at, pos, "the Wait call has no CFG position")
+			continue
+		}
+		cut := func(n ast.Node) bool {
+			rs := map[FieldID]bool{}
+			m.guardedReadsIn(w.F, n, rs, 0)
+			hit := false
+			for id := range rs {
+				if pred[id] {
+					hit = true
+				}
+			}
+			if !hit {
+				return false
+			}
+			if lockRequired {
+				return true
+			}
+			st, ok := m.la.StateAt(w.F, n)
+			if !ok {
+				return false
+			}
+			for _, v := range st {
+				if v >= 1 {
+					return true
+				}
+			}
+			return false
+		}
+		path, found := fl.pathToNodeAvoiding(target, cut)
+		if found {
+			var steps []string
+			for _, n := range path {
+				steps = append(steps, p.Position(n.Pos())+" "+nodeStr(n))
+			}
+			R.Fail("W8", at, pos, fmt.Sprintf("%s can reach cond.Wait without having read %s under the lock: a state change (and its notification) that lands after an earlier, unlocked check and before the park is lost, and the waiter sleeps although its condition holds", w.F.Name, fieldSet(pred)), steps...)
+		} else {
+			R.OK("W8", at, pos, "every path to the park reads "+fieldSet(pred)+" with the lock held")
+		}
 	}
 }
